@@ -72,7 +72,7 @@ RTerminates == <>(ph = "end")
    Machine state while scanning: <<phase, column, residuals, refinements, wanted op of the next solve, index of the column's first
    estimator call in ev or 0>>, phases 1 = resid, 2 = decide, 3 = solve, 4 = ferr, 5 = end. *)
 OnlyLacon(ev, from, to) == SelectSeq(SubSeq(ev, from, to), LAMBDA e : e[1] = 3)
-LSeq(ev, from, to) == LET s == OnlyLacon(ev, from, to) IN [k \in 1..Len(s) |-> <<s[k][2], s[k][3]>>]
+LSeq(ev, from, to) == LET s == OnlyLacon(ev, from, to) IN [k \in 1..Len(s) |-> <<s[k][2], s[k][3], IF Len(s[k]) >= 4 THEN s[k][4] ELSE -1>>]
 RStep(s, e, k, r) ==
    LET ph0 == s[1]  c == s[2]  nr == s[3]  nf == s[4]  w == s[5]  l0 == s[6] IN
    IF ph0 = 1 THEN (IF e[1] = 1 /\ e[2] = OpOfRes(r.op) /\ nr <= ITMAX THEN <<2, c, nr + 1, nf, 9, 0>> ELSE <<0, 0, 0, 0, 0, 0>>)
